@@ -200,12 +200,8 @@ def build_base(rnd):
             lines = ["  %d [+dsz2]  Sub  dyn_a" % pos]  # dsz2 <= 3 == size of Sub
         elif k < 0.6:
             lines = ["  %d [+(dfl ? 3 : 0)]  Sub  dyn_b" % pos]
-        elif k < 0.8:
-            lines = ["  %d [+dsz3]  Sub  dyn_c" % pos]  # dsz3 <= 7 > 3
         else:
-            lines = ["  %d [+dsz2 * %d]  %s  dyn_d" % (pos, (btotal // 8 + 2) // 3, bname)]  # 3 * ceil(n/3) >= n bytes
-            if not default_bo and btotal > 8:
-                lines.append('    [byte_order: "%s"]' % rnd.choice(["LittleEndian", "BigEndian"]))
+            lines = ["  %d [+dsz3]  Sub  dyn_c" % pos]  # dsz3 <= 7 > 3
         b.fields.append(("dynfield", lines))
         pos += 8
     return b, {"enums": enums, "bits": (bname, btotal), "end": pos, "default_bo": default_bo}
@@ -252,6 +248,12 @@ def violations(repo):
     @v("struct-type-smaller-than-field")
     def _(rnd, b, info):
         return _add_field(b, info, ["  @ [+%d]  Sub  bad" % rnd.choice([2, 4, 8])])
+
+    @v("bits-type-in-dynamically-sized-field")
+    def _(rnd, b, info):
+        # a bits type is read through a fixed-width block: like an enum it needs a statically sized field
+        lines = ["  @ [+1]  UInt  dynsz", "  @ [+dynsz]  %s  bad" % info["bits"][0]]
+        return _add_field(b, info, lines)
 
     @v("bits-type-size-differs-from-field")
     def _(rnd, b, info):
